@@ -19,6 +19,9 @@ PID = 'C11'
 LEVELS = [[], ['-O'], ['-OO']]
 
 
+loggrads = {}
+
+
 def run_workers(work, jobs, o):
     """each interpreter level gets all jobs, split over a few processes"""
     nsplit = max(1, min(5, len(jobs) // 6))
@@ -33,12 +36,15 @@ def run_workers(work, jobs, o):
                                  env=env, stdout=subprocess.PIPE, stderr=subprocess.PIPE, text=True)
             procs.append((p, part, of, s, li))
     results = {}
+    loggrads.clear()
     for p, part, of, s, li in procs:
         out, err = p.communicate(timeout=3000)
         if p.returncode != 0 or not of.exists():
             raise MachineryFailure(f'C11 worker (level {LEVELS[li]}) failed: {err[-500:]}')
-        for j, runs in zip(part, json.loads(of.read_text())):
-            results.setdefault(j['idx'], []).extend(runs)
+        for j, rec in zip(part, json.loads(of.read_text())):
+            results.setdefault(j['idx'], []).extend(rec['runs'])
+            if 'loggrad' in rec:
+                loggrads.setdefault(j['idx'], {'cotlog': rec['cotlog'], 'runs': []})['runs'].extend(rec['loggrad'])
     return results
 
 
@@ -106,6 +112,12 @@ def run(tier, seed):
         if any(v.get('v') == 'SPEC-INCONSISTENT' for v in v1.values()):
             raise MachineryFailure('cross-semiring theorem failed at model level')
         o.absorb_verdicts(nat_cases, v1, load_findings(), part='nonrecursive')
+        lg_cases = [{'ag': {k: j['ag'][k] for k in ('nls', 'els', 'start', 'rules', 'w')}, 'mode': 'nat', 'cot': loggrads[j['idx']]['cotlog'],
+                     'cotlog': loggrads[j['idx']]['cotlog'], 'pad': 0, 'runs': loggrads[j['idx']]['runs']} for j in jobs if j['mode'] == 'nat' and j['idx'] in loggrads]
+        v3, st, tr, _ = judge_batch(work / 'j3', 'Trace_Grad', lg_cases, per_shard_min=3, heap='3g')
+        o.states += st
+        o.transitions += tr
+        o.absorb_verdicts(lg_cases, v3, load_findings(), part='log_gradients')
         v2, st, tr, _ = judge_batch(work / 'j2', 'Trace_Recursive', fx_cases, per_shard_min=2, heap='3g')
         o.states += st
         o.transitions += tr
